@@ -66,6 +66,37 @@ fn replica(cfg: &Cfg, prepop: &Prepop, prefix: &[Op]) -> Result<Replica, String>
     Ok(Replica { built, plan })
 }
 
+/// fault-free calls run after a faulted call that reported success: they touch the target, its
+/// destination and their parents in ways that expose leftovers hidden from the listing
+fn follow_ups(target: &Op) -> Vec<Op> {
+    let mut v = vec![];
+    let mut paths = vec![target.target().to_string()];
+    if let Some(d) = target.dest() {
+        paths.push(d.to_string());
+    }
+    for p in paths {
+        if p.is_empty() {
+            continue;
+        }
+        let parent = parent_of(&p);
+        v.push(Op::Exists(p.clone()));
+        v.push(Op::Append(p.clone(), std::sync::Arc::new(b"z".to_vec())));
+        v.push(Op::Read(p.clone()));
+        v.push(Op::CreateDir(p.clone()));
+        v.push(Op::CreateDirAll(format!("{}/q", p)));
+        v.push(Op::ReadDir(parent.clone()));
+        v.push(Op::RemoveDirAll(p.clone()));
+        v.push(Op::RemoveFile(p.clone()));
+        v.push(Op::CreateFile(p.clone(), std::sync::Arc::new(b"n".to_vec())));
+        if !parent.is_empty() {
+            v.push(Op::RemoveDirAll(parent.clone()));
+            v.push(Op::CreateDirAll(parent));
+        }
+    }
+    v.push(Op::WalkDir(String::new()));
+    v
+}
+
 fn lowers(r: &Replica) -> Vec<Tree> {
     r.built.layers.iter().skip(1).map(|l| snapshot(l).tree).collect()
 }
@@ -162,6 +193,30 @@ fn test(case: &Case, st: &mut Stats, counting: bool, handle_io: bool) -> CaseRes
                         if s != s_star {
                             return Err((format!("{}: reported success but the effect is partial or wrong: {:?}", desc(), diff_trees(&s_star, &s)), info));
                         }
+                        // The visible tree is right - but is the state behind it? The same fault-free
+                        // follow-up calls on this replica and on a replica that never saw a fault
+                        // must have the same outcomes and leave the same trees.
+                        if fired.is_some() {
+                            let follow = follow_ups(&target);
+                            let rref = replica(cfg, &prepop, &prefix).map_err(noinfo)?;
+                            rref.plan.arm(-1, false);
+                            let _ = exec(&rref.built.root, &target);
+                            for f in &follow {
+                                let (oa, ob) = (exec(&rk.built.root, f), exec(&rref.built.root, f));
+                                if let Outcome::Panic(m) = &oa {
+                                    return Err((format!("{}: reported success; afterwards {} panicked: {}", desc(), f.render(), m), info));
+                                }
+                                if oa.class_str() != ob.class_str() {
+                                    return Err((format!("{}: reported success and the tree looks right, but afterwards {} gives {} where it gives {} after a fault-free run", desc(), f.render(), oa.render(), ob.render()), info));
+                                }
+                                let (ta, tb) = (snapshot(&rk.built.root).tree, snapshot(&rref.built.root).tree);
+                                if ta != tb {
+                                    return Err((format!("{}: reported success and the tree looks right, but after the follow-up {} the tree differs from the one after a fault-free run: {:?}", desc(), f.render(), diff_trees(&tb, &ta)), info));
+                                }
+                            }
+                            rref.plan.disarm();
+                            local.label_n("follow_up_calls_after_ok_under_fault", follow.len() as u64);
+                        }
                         local.label(if fired.is_some() { "faulted_runs_ok_with_full_effect" } else { "fault_position_not_reached" });
                     }
                 }
@@ -212,7 +267,7 @@ pub fn replay(v: &Value) -> CaseResult {
     test(&Case { base, targets }, &mut st, false, handle_io)
 }
 
-const RULE: &str = "stacks (plain backend, altroot, overlay with 1..3 layers incl. altroot/overlay layers, altroot over overlay, overlay on sub-paths) with EVERY leaf backend wrapped in FaultFS; a generated history of <=12 ops establishes a state, then 1..2 target ops (biased to create_dir_all, remove_dir_all, copy/move file/dir, walk_dir, read_to_string, plus adapter primitives and observers) are run: first fault-free on a replica to count the N trait calls reaching any leaf and to record result R* and post-state S*, then for EVERY k<N (cap 400) on a fresh replica rebuilt by deterministic replay with the k-th call failing with an I/O error (a second pass also counts and fails the reads/writes on file handles handed out by the wrapped filesystems); oracle per injection: no panic, lower overlay layers unchanged, and if the faulted run returns Ok then R* is Ok, the value equals R* and the tree observed with faults disarmed equals S*; evaluations = injections; non-trivial = injection at k>=1 into a target making >=2 underlying calls, distinct by (stack, target, k)";
+const RULE: &str = "stacks (plain backend, altroot, overlay with 1..3 layers incl. altroot/overlay layers, altroot over overlay, overlay on sub-paths) with EVERY leaf backend wrapped in FaultFS; a generated history of <=12 ops establishes a state, then 1..2 target ops (biased to create_dir_all, remove_dir_all, copy/move file/dir, walk_dir, read_to_string, plus adapter primitives and observers) are run: first fault-free on a replica to count the N trait calls reaching any leaf and to record result R* and post-state S*, then for EVERY k<N (cap 400) on a fresh replica rebuilt by deterministic replay with the k-th call failing with an I/O error (a second pass also counts and fails the reads/writes on file handles handed out by the wrapped filesystems); oracle per injection: no panic, lower overlay layers unchanged, and if the faulted run returns Ok then R* is Ok, the value equals R* and the tree observed with faults disarmed equals S*, and a fixed list of fault-free follow-up calls on the target, its destination and their parents has the same outcomes and leaves the same trees as after a fault-free run (state hidden behind a right-looking listing); evaluations = injections; non-trivial = injection at k>=1 into a target making >=2 underlying calls, distinct by (stack, target, k)";
 
 pub fn run(ctx: &RunCtx) -> i32 {
     let reg = crate::regress::run_for(&ctx.id, &replay);
